@@ -6,6 +6,9 @@
 2. Spec histories (-simulate of a larger generator instance, eavesdropping on and off) are replayed as
    000C / 0005 / ... packets through a real Gateway; after every step the real object graph is
    projected and compared with the model state (a mismatch is MODEL-DRIFT, never a verdict).
+   Transition coverage: every (graph, claim) pair of a small instance (MC_TopologyTC) is executed at least once
+   (tours); claims include replies that name no device and the application faking a device; the known_list
+   (nothing listed / listed / listed as faked) is a dimension of every family.
 3. Second driver: the graphs reached by the model are turned into schemas and loaded as
    configuration, plus larger generated schemas (1-3 controllers, 0-12 zones, DHW, UFH, orphans).
 4. TLC (TopologyTrace) judges every recorded step: a validator accepts shrink(gwy.schema);
@@ -655,7 +658,11 @@ def _explore(chk: Check, rng: random.Random, thorough: bool, pool: Any) -> tuple
 
     def tours() -> None:
         try:
-            tc["tours"], tc["cov"] = transition_tours("MC_TopologyTC_big.cfg" if thorough else "MC_TopologyTC.cfg")
+            tc["tours"], tc["cov"] = [], []
+            for cfgfile in (("MC_TopologyTC_bdr.cfg", "MC_TopologyTC_z3.cfg") if thorough else ("MC_TopologyTC.cfg",)):
+                tours_, cov_ = transition_tours(cfgfile)
+                tc["tours"] += tours_
+                tc["cov"].append(cov_)
         except BaseException as err:  # noqa: BLE001
             tc["err"] = err
 
@@ -680,10 +687,9 @@ def _explore(chk: Check, rng: random.Random, thorough: bool, pool: Any) -> tuple
                     graphs.setdefault(json.dumps(sch, sort_keys=True), sch)
     n_hist = len(jobs)
     # every transition of the small instance, the tours taking turns in the three known_list settings
-    tc_devs = sorted(tc["tours"][0]["model"][0]["par"])
     for n, t in enumerate(tc["tours"]):
         jobs.append({"kind": "tlc-transition-tour", "claims": t["claims"], "eavesdrop": True, "max_zones": 2,
-                     "model": t["model"], "known_list": kl_variant(n, tc_devs)})
+                     "model": t["model"], "known_list": kl_variant(n, sorted(t["model"][0]["par"]))})
     jobs += directed_histories()
     jobs += ufc_histories()
     jobs += log_histories(rng, 120 if thorough else 10)
@@ -792,6 +798,9 @@ def _conclude(chk: Check, mc: TlcPhase, th_mc: threading.Thread, recs: list[dict
             "(shrink() drops them on any reload) - resolved towards not alarming, see the notes",
             "a configuration the gateway refuses to load (exception from Gateway.start) has no reported schema "
             "and is only counted",
+            "the configuration fed back is the reported schema with the known_list the gateway was given, plus "
+            "'faked: true' for the devices the application has had faked since; what fake_device() raises to its "
+            "caller is recorded, not judged",
         ],
     )
 
